@@ -106,6 +106,34 @@ def nesting_texts():
         out.append('let a = f"%s";' % ('{1}' * d))
         out.append('let a = %s"x"%s;' % ('#' * d, '#' * d))
         out.append('let a = %s()->{%s 1 %s}%s;' % ('(', '()->{' * d, '}' * d, ')'))
+        # every bracketed construct of the type grammar and of string interpolation, nested in itself (a construct whose
+        # alternatives share a prefix is parsed once per alternative and level: exponential in the depth)
+        out.append('fn f(x: %sint%s)->int{ 1 }' % ('(' * d, ')' * d))
+        out.append('fn f(x: %sint%s)->int{ 1 }' % ('(' * d, ',)' * d))
+        out.append('fn f(x: %sint%s)->int{ 1 }' % ('(' * d, ')->(int)' * d))
+        out.append('fn f(x: %sint%s)->int{ 1 }' % ('()->(' * d, ')' * d))
+        out.append('fn f(x: %sint, int%s)->int{ 1 }' % ('(' * d, ')->(int)' * d))
+        out.append('fn f(x: %sbad!%s)->int{ 1 }' % ('(' * d, ')->(int)' * d))
+        out.append('fn f(x: %sint%s->int{ 1 }' % ('(' * d, ')' * (d - 1)))
+        out.append('let a: %sint%s = 1;' % ('(' * d, ')' * d))
+        out.append('type TN = %sint%s;' % ('(Sequence<' * d, '>)' * d))
+        out.append('let a = len{%sint%s};' % ('(' * d, ')' * d))
+        fs, ff, fm = '1', '1', '1'
+        for i in range(min(d, 40)):
+            q = '#' * i
+            fs = 'f%s"{%s}"%s' % (q, fs, q)
+            ff = 'f%s"{%s:>3}"%s' % (q, ff, q)
+            fm = 'f%s"a{%s}b{%s:x}"%s' % (q, fm if i < 3 else '1', fm, q)
+        out.append('let a = %s;' % fs)
+        out.append('let a = %s;' % ff)
+        out.append('let a = %s;' % fm)
+        out.append('let a = %s1%s;' % ('f"{' * min(d, 1), '}"' * min(d, 1)))
+        out.append('let a = %s1%s;' % ('[(' * d, ', 2)]' * d))
+        out.append('let a = %s1%s;' % ('some(' * d, ')' * d))
+        out.append('let a = %s;' % ('x' + '::a' * d))
+        out.append('let a = %s1%s;' % ('ff{int}(' * d, ')' * d))
+        out.append('let a = 1 %s;' % ('+ (1 ' * d + ')' * d))
+        out.append('struct NS(a: %sint%s)' % ('Optional<(' * d, ')>' * d))
     return out
 
 
